@@ -174,6 +174,8 @@ SPECS.append({
  "harnesses": [
   H("C08", "internal/cli", "Save2", "both", ["saved"], "notebook missing or 0..2 symbolic entries; symbolic new entry", "replace-or-append, neighbours preserved, fields stored exactly"),
   H("C08", DB, "Merge", "both", ["merged", "searched"], "main file with 2 entries, notebook missing or 0-2 entries; command strings over a 2-letter alphabet (collisions with main / each other)", "searched database = main ++ notebook; a saved command is found by its words"),
+  H("C08", "internal/cli", "SavePipelineHandler", "both", ["saved"], "the save-pipeline handler called directly (3 command texts, with / without a pipe; category / description flags set or not), empty notebook", "entry built by the handler: command, description, category, pipeline flag"),
+  H("C08", "internal/cli", "SaveHandler", "both", ["saved"], "the save handler called directly (category / pipeline flags set or not, two keywords)", "entry built by the handler"),
   H("C08", "internal/cli", "Save3", "thorough", ["saved"], "0..3 entries", "same"),
  ],
  "manifest": {"text": "Bounded symbolic model checking of the notebook's read-modify-write kernel under an assumed YAML round trip; the process-level parts of the property (cobra start-up, real YAML fidelity) are stated as outside the claim.",
